@@ -68,6 +68,14 @@ def geometries(rng, polys, n):
     out.append(('diagonal', [('line', [(x0_ - 1, y0_ - 1), (x1_ + 1, y1_ + 1.5)])]))
     out.append(('ell', [('ring', [(x0_ - 1, y0_ - 1), (x1_ + 1, y0_ - 1), (x1_ + 1, y0_), (x0_, y0_), (x0_, y1_ + 1), (x0_ - 1, y1_ + 1)])]))
     out.append(('far_points', [('point', (x0_ - 1, y0_ - 1)), ('point', (x1_ + 1, y1_ + 1))]))
+    # everything except one cell in the middle: four strips around that cell's bounding box (grown a little); on a mesh the
+    # cell is dropped while every one of its nodes is kept by its neighbours
+    cx, cy = (x0_ + x1_) / 2, (y0_ + y1_) / 2
+    mid = min(rings, key=lambda r: (sum(x for x, y in r) / len(r) - cx) ** 2 + (sum(y for x, y in r) / len(r) - cy) ** 2)
+    hx0, hx1 = min(x for x, y in mid) - 0.0625, max(x for x, y in mid) + 0.0625
+    hy0, hy1 = min(y for x, y in mid) - 0.0625, max(y for x, y in mid) + 0.0625
+    out.append(('around_one_cell', [('ring', box(x0_ - 1, y0_ - 1, hx0, y1_ + 1)), ('ring', box(hx1, y0_ - 1, x1_ + 1, y1_ + 1)),
+                                    ('ring', box(hx0, y0_ - 1, hx1, hy0)), ('ring', box(hx0, hy1, hx1, y1_ + 1))]))
     for _ in range(n):
         c = rng.choice(['box', 'box', 'cover', 'touch', 'triangle', 'line', 'point', 'multi', 'border', 'miss'])
         if c == 'box' and len(xs) > 1 and len(ys) > 1:
@@ -213,6 +221,10 @@ def run(ctx):
         kw = {}
         if fam == 'ugrid' and n % 3 == 0:
             kw = dict(w=rng.randint(3, 5), h=rng.randint(3, 4))       # enough faces for the tree order to matter
+        if fam == 'ugrid' and n == 4:
+            # one-based face_node; the edge tables zero-based without a start_index attribute (each variable has its own base)
+            kw = dict(w=3, h=3, start_index=1, supplied={'edge_node', 'face_edge'}, bare_zero_based=('edge_node', 'face_edge'),
+                      edge_dim_declared=True)
         d = gen.any_dataset(rng, fam, **kw)
         if n % 2 == 1:
             # the same dataset with its 2-D arrays held column-major in memory (after .T / transpose() / loadmat)
